@@ -196,7 +196,7 @@ func (f *Fix) MakeDeposit(assetId, chain crypto.Hash, assetKey string, amount co
 	if err := signed.SignRaw(f.Domain.PrivateSpendKey); err != nil {
 		panic(err)
 	}
-	return signed.AsVersioned()
+	return Decoded(signed.AsVersioned())
 }
 
 // BaseTime is a timestamp comfortably after genesis.
@@ -209,4 +209,21 @@ func KeyPrefix(k string) string {
 		}
 	}
 	return k
+}
+
+// Decoded returns the transaction as a node holds it: decoded from its
+// encoding, so that every key, hash and signature is an object of its own
+// (values built in memory share pointers, which decoded ones never do).
+func Decoded(ver *common.VersionedTransaction) (out *common.VersionedTransaction) {
+	out = ver
+	defer func() {
+		if recover() != nil {
+			out = ver
+		}
+	}()
+	dec, err := common.UnmarshalVersionedTransaction(ver.Marshal())
+	if err != nil || dec.PayloadHash() != ver.PayloadHash() {
+		return ver
+	}
+	return dec
 }
